@@ -84,4 +84,25 @@ def units(ctx):
     us += [contract_unit(c, world_setup=utils.setup_input)
            for c in utils.input_contracts()]
     us.append(frame_unit('C10'))
+    # end to end (expression -> evaluation -> finalisation), natively: a
+    # bounded stand-in and the source of real failing inputs
+    from props._common import bounded_unit
+    us.append(bounded_unit(
+        'bounded:c10-finalize', 'c10_finalize.py',
+        'BOUNDED: 60 expressions producing every kind of value x 4 option '
+        'combinations x 2 entry points, falsy and generator documents, '
+        'YaqlInterface call forms, statement reuse across contexts: the '
+        'finalised result is plain data'))
     return us
+
+
+def post(ctx, results):
+    from props._common import attach_replay
+    b = [o for r in results for o in r['obligations']
+         if o['name'] == 'bounded:c10-finalize']
+    rep = b[0].get('replay') if b else None
+    if rep and rep.get('status') == 'failed':
+        attach_replay(results, lambda o: not o.get('bounded') and not
+                      o.get('probe') and o.get('kind') in ('post', 'raises',
+                                                            'frame'), rep)
+    return results
